@@ -1,6 +1,15 @@
 #!/bin/sh
-# runs every seeded change against the quick check of its property, one at a time (each run patches /repo and undoes it); writes seeded/RESULTS.txt
+# runs every seeded change (or those matching $1, a glob under seeded/) against the quick check of its property, one at a time
+# (each run patches /repo and undoes it); appends to seeded/RESULTS.txt (replacing the lines of the changes it re-ran)
 cd "$(dirname "$0")/.." || exit 2
-out=seeded/RESULTS.txt.new; : > $out
-for d in seeded/C*-m*; do python3 tools/run_seeded.py $d | head -1 >> $out; done
-mv $out seeded/RESULTS.txt
+pat=${1:-C*-m*}; out=seeded/RESULTS.txt.new; : > $out
+for d in seeded/$pat; do [ -d "$d" ] || continue; python3 tools/run_seeded.py $d | head -1 >> $out; done
+touch seeded/RESULTS.txt
+python3 - <<'PY'
+import re
+old=[l for l in open('seeded/RESULTS.txt') if l.strip()]; new=[l for l in open('seeded/RESULTS.txt.new') if l.strip()]
+names={l.split()[1] for l in new}
+keep=[l for l in old if l.split()[1] not in names]
+open('seeded/RESULTS.txt','w').write(''.join(sorted(keep+new, key=lambda l: l.split()[1])))
+PY
+rm -f $out
